@@ -19,6 +19,7 @@ import (
 	"context"
 	"fmt"
 	"net"
+	"net/http"
 	"regexp"
 	"sort"
 	"strings"
@@ -29,6 +30,7 @@ import (
 	. "verifharness/hlib"
 
 	erpc "github.com/henrylee2cn/erpc/v6"
+	ws "github.com/henrylee2cn/erpc/v6/mixer/websocket"
 	"github.com/henrylee2cn/erpc/v6/plugin/auth"
 	"github.com/henrylee2cn/erpc/v6/plugin/binder"
 	"github.com/henrylee2cn/erpc/v6/plugin/heartbeat"
@@ -111,6 +113,9 @@ var (
 func setupWatch() {
 	for name, p := range erpc.VerifSentinels() {
 		watch = append(watch, &shared{pkg: "", name: name, p: p})
+	}
+	for name, p := range ws.VerifSentinels() {
+		watch = append(watch, &shared{pkg: "mixer/websocket", name: name, p: p})
 	}
 	watch = append(watch,
 		&shared{pkg: "plugin/auth", name: "MultiSendErr", p: auth.MultiSendErr},
@@ -206,6 +211,15 @@ type Bindshared struct{ erpc.CallCtx }
 
 func (b *Bindshared) Check(arg *BindArg) (int, *erpc.Status) { return arg.A + arg.B + arg.C, nil }
 
+// panicHandshake makes mixer/websocket's preHandshake recover a panic
+// (statInternalServerError.Copy(p) of that package).
+type panicHandshake struct{}
+
+func (panicHandshake) Name() string { return "c15-panic-handshake" }
+func (panicHandshake) PreHandshake(r *http.Request) *erpc.Status {
+	panic("handshake boom")
+}
+
 // ---------------------------------------------------------------- the forwarder seen by plugin/proxy
 
 type fwdResult struct {
@@ -248,6 +262,10 @@ type world struct {
 	fwdRes                       chan fwdResult
 	protoLis                     map[string]*Listener // backend listeners speaking another protocol
 	protoFn                      map[string]erpc.ProtoFunc
+	wsAddr                       string // the backend behind the websocket mixer (JSON sub-protocol)
+	wsCli                        *ws.Client
+	wsPanicCli                   *ws.Client
+	wsPanicAddr                  string
 	deadAddr                     string
 }
 
@@ -281,6 +299,17 @@ func newWorld() *world {
 		Must(err)
 		w.protoLis[k] = l
 	}
+	// the same backend behind the websocket mixer, and a websocket peer whose handshake plugin panics
+	wl, err := net.Listen("tcp", "127.0.0.1:0")
+	Must(err)
+	w.wsAddr = wl.Addr().String()
+	go http.Serve(wl, ws.NewJSONServeHandler(w.backend, nil))
+	w.wsCli = ws.NewClient("/", erpc.PeerConfig{})
+	wsPanicPeer := erpc.NewPeer(erpc.PeerConfig{}, panicHandshake{})
+	wl2, err := net.Listen("tcp", "127.0.0.1:0")
+	Must(err)
+	w.wsPanicAddr = wl2.Addr().String()
+	go http.Serve(wl2, ws.NewJSONServeHandler(wsPanicPeer, nil))
 	// proxy
 	w.fwdCli = erpc.NewPeer(erpc.PeerConfig{})
 	w.proxyP = erpc.NewPeer(erpc.PeerConfig{}, proxy.NewPlugin(func(*proxy.Label) proxy.Forwarder { return forwarder{w} }))
@@ -448,6 +477,7 @@ func fwdVal(r fwdResult) string {
 var opKinds = []string{
 	"call_ok", "call_ok_secure", "call_404", "call_badbody", "call_panic", "call_custom",
 	"call_404_json", "call_404_pb", "call_404_http", "call_panic_json", "call_panic_pb", "call_panic_http",
+	"call_404_ws", "call_panic_ws", "ws_handshake_panic",
 	"closed_call", "closed_push", "dial_fail", "mtype_405", "unprepared", "write_failed",
 	"proxy_call_up", "proxy_call_up_404", "proxy_call_up_panic", "proxy_call_up_1xx", "proxy_push_up",
 	"proxy_call_down", "proxy_push_down", "proxy_call_dying",
@@ -536,6 +566,31 @@ func (w *world) run(kind string, cfg *RunCfg, tag string) (r opResult) {
 		}
 		s.Close()
 		r.obs, r.held = tripleOf(st), st
+		r.human = kind
+	case "call_404_ws", "call_panic_ws":
+		s, stat := w.wsCli.DialJSON(w.wsAddr)
+		if !stat.OK() {
+			abort("websocket dial: %v", stat)
+		}
+		var st *erpc.Status
+		if kind == "call_404_ws" {
+			st = s.Call("/nobody/home", &AddArg{}, &res).Status()
+			r.kind = "call_404"
+		} else {
+			cause := "boom-ws-" + tag
+			st = s.Call("/math/panic", &cause, &res).Status()
+			r.kind = "call_panic"
+			r.args = []string{VB([]byte(cause))}
+		}
+		s.Close()
+		r.obs, r.held = tripleOf(st), st
+		r.human = kind
+	case "ws_handshake_panic":
+		// the server's handshake plugin panics; the client's upgrade fails and Dial reports it
+		_, st := w.wsCli.DialJSON(w.wsPanicAddr)
+		r.obs, r.held = tripleOf(st), st
+		r.kind = "dial_fail"
+		r.args = []string{VB([]byte(r.obs.cause))}
 		r.human = kind
 	case "closed_call":
 		st := w.closedSession().Call("/math/add", &AddArg{}, &res).Status()
